@@ -26,7 +26,7 @@
 (***************************************************************************)
 EXTENDS Programs, TLC, Json
 
-CONSTANTS MaxLeaves, MaxOps, MaxTensors, ChunkSizes, MaxRows, SampleMod, SamplePick,
+CONSTANTS MaxLeaves, MaxOps, MaxTensors, ChunkSizes, MaxRows, SampleMod, SamplePick, PreModes,
           MaxTasks
 
 VARIABLES P, phase, call, grad, d, ordJ, rows, sweeps, pending,      \* as in Backward.tla
